@@ -1118,4 +1118,127 @@ theorem addAtSegsH_lookup {h : Heap} {rank : Addr → Nat} (hc : h.Closed) (hr :
       simp only [contChildH, hch', hgr]
       exact hlook hfr
 
+/-! ## 6. which cells a call can touch: only cells reachable from the handle it is made on -/
+
+theorem ShrinkSpec.reach {h h' : Heap} (hs : ShrinkSpec h h') {a b : Addr} (hab : Reach h' a b) : Reach h a b := by
+  induction hab with
+  | refl _ => exact .refl _
+  | step hg hk _ ih =>
+    obtain ⟨cell, hg0, hsub, _⟩ := hs.cells _ _ hg
+    exact .step hg0 (hsub _ hk) ih
+
+theorem remove_frame {h h' : Heap} {c : Addr} {name : String} (he : Ytk.Heap.remove h c name = some h')
+    {a : Addr} (hne : a ≠ c) : h'.get? a = h.get? a := by
+  unfold Ytk.Heap.remove at he
+  split at he
+  · simp only [Option.some.injEq] at he; subst he; exact get?_write_ne h _ hne
+  · cases he
+
+theorem removeAtSegsH_frame {h : Heap} : ∀ (segs : List String) (c : Addr) (h' : Heap),
+    removeAtSegsH h c segs = some h' → ∀ a, ¬ Reach h c a → h'.get? a = h.get? a
+  | [], _, _, he, _, _ => by
+    simp only [removeAtSegsH, Option.some.injEq] at he; subst he; rfl
+  | [s], c, h', he, a, hna => by
+    simp only [removeAtSegsH] at he
+    exact remove_frame he (fun e => hna (e ▸ .refl _))
+  | s :: t :: rest, c, h', he, a, hna => by
+    simp only [removeAtSegsH] at he
+    cases hcc : contChildH h c s with
+    | some x =>
+      simp only [hcc] at he
+      exact removeAtSegsH_frame (t :: rest) x h' he a
+        (fun hxa => hna ((childH_reach (contChildH_some hcc).1).trans hxa))
+    | none => simp only [hcc, Option.some.injEq] at he; subst he; rfl
+
+theorem compactKvsH_frame {g : Heap → Addr → Option Heap} {h0 : Heap} {c : Addr}
+    (hgs : ∀ h a h', g h a = some h' → ShrinkSpec h h')
+    (hgf : ∀ h x h', g h x = some h' → ∀ a, ¬ Reach h x a → h'.get? a = h.get? a) :
+    ∀ (kvs : List (String × Addr)) (h : Heap) (h' : Heap), ShrinkSpec h0 h → (∀ p ∈ kvs, Reach h0 c p.2) →
+      compactKvsH g h c kvs = some h' → ∀ a, ¬ Reach h0 c a → h'.get? a = h.get? a
+  | [], h, h', _, _, he, _, _ => by
+    simp only [compactKvsH, Option.some.injEq] at he; subst he; rfl
+  | (k, v) :: rest, h, h', hs0, hkv, he, a, hna => by
+    simp only [compactKvsH] at he
+    have hrest : ∀ p ∈ rest, Reach h0 c p.2 := fun p hp => hkv p (List.mem_cons_of_mem _ hp)
+    have hcv : Reach h0 c v := hkv (k, v) (List.mem_cons_self ..)
+    split at he
+    · cases hgv : g h v with
+      | none => simp [hgv] at he
+      | some h1 =>
+        simp only [hgv] at he
+        have s1 := hgs h v h1 hgv
+        have f1 : h1.get? a = h.get? a :=
+          hgf h v h1 hgv a (fun hva => hna (hcv.trans (hs0.reach hva)))
+        split at he
+        · cases hrm : Ytk.Heap.remove h1 c k with
+          | none => simp [hrm] at he
+          | some h2 =>
+            simp only [hrm] at he
+            have f2 : h2.get? a = h1.get? a := remove_frame hrm (fun e => hna (e ▸ .refl _))
+            rw [compactKvsH_frame hgs hgf rest h2 h' (hs0.trans (s1.trans (remove_spec hrm))) hrest he a hna, f2, f1]
+        · rw [compactKvsH_frame hgs hgf rest h1 h' (hs0.trans s1) hrest he a hna, f1]
+    · exact compactKvsH_frame hgs hgf rest h h' hs0 hrest he a hna
+
+theorem compactF_frame : ∀ (f : Nat) (h : Heap) (c : Addr) (h' : Heap), compactF f h c = some h' →
+    ∀ a, ¬ Reach h c a → h'.get? a = h.get? a
+  | 0, _, _, _, he, _, _ => by simp [compactF] at he
+  | f + 1, h, c, h', he, a, hna => by
+    simp only [compactF] at he
+    split at he
+    · rename_i kvs hg
+      exact compactKvsH_frame (compactF_spec f) (compactF_frame f) kvs h h' (.refl h)
+        (fun p hp => .step hg (by simp only [Cell.kids, List.mem_map]; exact ⟨p, hp, rfl⟩) (.refl _)) he a hna
+    · cases he
+
+/-- everything reachable from the handle after an attaching call is: reachable before, or new, or
+    below the value node, or the nil leaf (padding) -/
+theorem AttachSpec.reach_after {h h' : Heap} {c v w : Addr} (hs : AttachSpec h c v w h') (hc : h.Closed)
+    (hn : h.NilOk) (hv : v < h.size) (hclt : c < h.size) {b : Addr} (hb : Reach h' c b) :
+    Reach h c b ∨ h.size ≤ b ∨ Reach h v b ∨ b = nilAddr := by
+  have hwlt : w < h.size := reach_lt hc hs.reach_w hclt
+  have hwnil : w ≠ nilAddr := by
+    obtain ⟨cw, _, h1w, _, hleaf, _⟩ := hs.written
+    intro e; subst e
+    rw [show h.get? nilAddr = some (.leaf Scalar.null) from hn] at h1w
+    cases h1w; simp [Cell.isLeaf] at hleaf
+  refine Reach.closed_set (fun b => Reach h c b ∨ h.size ≤ b ∨ Reach h v b ∨ b = nilAddr) ?_ hb (Or.inl (.refl _))
+  intro a cell ha hg k hk
+  -- the written cell: old children, nil, v, new cells
+  have hwcase : a = w → Reach h c k ∨ h.size ≤ k ∨ Reach h v k ∨ k = nilAddr := by
+    intro e; subst e
+    obtain ⟨cw, cw', h1w, h2w, _, _, _, hkids, _⟩ := hs.written
+    rw [hg] at h2w; cases h2w
+    rcases hkids k hk with hk | hk | hk | hk
+    · exact Or.inl (hs.reach_w.trans (.step h1w hk (.refl _)))
+    · exact Or.inr (Or.inr (Or.inr hk))
+    · exact Or.inr (Or.inr (Or.inl (hk ▸ .refl _)))
+    · exact Or.inr (Or.inl hk.1)
+  by_cases haw : a = w
+  · exact hwcase haw
+  by_cases halt : a < h.size
+  · rw [hs.frame a halt haw] at hg
+    rcases ha with ha | ha | ha | ha
+    · exact Or.inl (ha.trans (.step hg hk (.refl _)))
+    · exact absurd halt (Nat.not_lt.mpr ha)
+    · exact Or.inr (Or.inr (Or.inl (ha.trans (.step hg hk (.refl _)))))
+    · subst ha
+      rw [show h.get? nilAddr = some (.leaf Scalar.null) from hn] at hg
+      cases hg; simp [Cell.kids] at hk
+  · rcases (hs.fresh a cell (Nat.le_of_not_lt halt) hg).1 k hk with hk | hk | hk
+    · exact Or.inr (Or.inl hk.1)
+    · exact Or.inr (Or.inr (Or.inl (hk ▸ .refl _)))
+    · exact Or.inr (Or.inr (Or.inr hk))
+
+/-- FRAME for handles: an attaching call made on `c` leaves the abstraction of every root alone that
+    shares no container / list with the graph below `c` -/
+theorem AttachSpec.abs_frame {h h' : Heap} {c v w : Addr} (hs : AttachSpec h c v w h') (hc : h.Closed)
+    {root : Addr} (hrlt : root < h.size) (hap : Apart h root c) (f : Nat) : absH f h' root = absH f h root := by
+  apply absH_agree
+  intro b hb
+  have hblt := reach_lt hc hb hrlt
+  apply hs.frame b hblt
+  intro e; subst e
+  obtain ⟨cw, _, h1w, _, hleaf, _⟩ := hs.written
+  exact hap b hb hs.reach_w ⟨cw, h1w, hleaf⟩
+
 end Ytk.Heap
